@@ -56,7 +56,9 @@ fn hash_ipv4_flow(ip_packet: &[u8], num_workers: usize) -> Option<usize> {
     }
 
     // IPv4 header is variable length (IHL field)
-    let ihl = (ip_packet[0] & 0x0F) as usize;
+    // (a header length below the 20-byte minimum is invalid; the analyzer then reads the TCP
+    // header right after the fixed 20 bytes, so the ports are taken from the same place)
+    let ihl = ((ip_packet[0] & 0x0F) as usize).max(5);
     let ip_header_len = ihl.saturating_mul(4);
 
     if ip_packet.len() < ip_header_len.saturating_add(4) {
